@@ -42,11 +42,43 @@ def true_arg_calls(body, name):
     return out
 
 
+MEL_NEW = "acmed::main_event_loop::MainEventLoop::new"
+GET_ID = "acmed::certificate::Certificate::get_id"
+
+
+def one_writer_per_path(ctx, R7):
+    """File paths depend on the certificate's name and key type only; two certificate objects with equal get_id() would write the
+    same two files from concurrent renewals (key of one beside the chain of the other). The start-up duplicate test is what excludes
+    it: every map/set operation keyed by get_id() in MainEventLoop::new must be keyed by get_id() ALONE — a key that also carries
+    the endpoint or account lets equal ids through."""
+    prog = ctx.prog
+    b = prog.async_body(MEL_NEW) or prog.body(MEL_NEW)
+    if b is None:
+        ctx.fail(R7, "acmed/src/main_event_loop.rs", "MainEventLoop::new not found", [MEL_NEW, "missing"])
+        return
+    keyed = []
+    for c in b.calls:
+        n = (c.name or c.fn or "")
+        if n.rsplit("::", 1)[-1] not in ("contains_key", "contains", "insert", "entry", "get") or not ("HashMap" in n or "HashSet" in n or "BTreeMap" in n or "BTreeSet" in n):
+            continue
+        sl = arg_origins(c, 1)
+        if any(x.is_(GET_ID) for x in sl.calls):
+            keyed.append((c, sl))
+    ctx.floor(R7, "map/set operations keyed by Certificate::get_id() in MainEventLoop::new", len(keyed), 2)
+    for c, sl in keyed:
+        extra = sorted(l for l in sl.leaves if l != "call:" + GET_ID)
+        ctx.require(R7, not extra, c.where(), "%s is keyed by get_id() alone%s" % ((c.name or c.fn).rsplit("::", 1)[-1], (" (also: %s)" % ", ".join(extra[:3])) if extra else ""),
+                    [MEL_NEW, "certificate-id-key", (c.name or c.fn).rsplit("::", 1)[-1]])
+    tests = [c for c, sl in keyed if (c.name or c.fn).rsplit("::", 1)[-1] in ("contains_key", "contains", "get", "entry")]
+    ctx.require(R7, bool(tests) or any((c.name or c.fn).endswith("HashSet::insert") for c, _ in keyed), "%s:%s" % (b.file, b.line), "the certificate id is tested for presence before the certificate is accepted", [MEL_NEW, "duplicate-test"])
+
+
 def check(ctx):
     prog = ctx.prog
     # key and certificate are different files: the two configured extensions survive the merge of included [global] tables (C14.R2)
     from .c14 import merge_pairing as _mp
     _mp(ctx, ctx.rule("M1", "[shared with C14] pk_file_ext / cert_file_ext of an included [global] table are merged into the same-named option"), only=("pk_file_ext", "cert_file_ext"))
+    one_writer_per_path(ctx, ctx.rule("R7", "one certificate per pair of files: MainEventLoop::new refuses a second certificate with the same Certificate::get_id() — the id (name + key type) the file names derive from — whatever else differs (endpoint, account)"))
     b = prog.async_body(WF)
     R1 = ctx.rule("R1", "every open() of a storage file is preceded on all paths by write(true) and truncate(true)|create_new(true) on the same builder, never append(true)")
     open_rule(ctx, R1)
